@@ -27,12 +27,14 @@ def run(tier: str) -> int:
             {"Family": "stack1", "MaxLen": 3, "Starts": "zero", "Sample": 0, "workers": 4, "style": "both"},
             {"Family": "stack", "MaxLen": 4, "Starts": "zero", "Sample": 1000, "workers": 4},
             {"Family": "stackdeep", "MaxLen": 3, "Starts": "zero", "Sample": 2500, "workers": 4},
+            {"Family": "trivfx", "MaxLen": 4, "Starts": "zero", "Sample": 300, "workers": 3},  # implicit rules that push / pop
         ]
     else:
         fams = [
             {"Family": "stack1", "MaxLen": 5, "Starts": "zero", "Sample": 0, "workers": 8, "style": "both"},
             {"Family": "stack", "MaxLen": 5, "Starts": "zero", "Sample": 0, "workers": 12},
             {"Family": "stackdeep", "MaxLen": 4, "Starts": "zero", "Sample": 0, "workers": 12},
+            {"Family": "trivfx", "MaxLen": 4, "Starts": "zero", "Sample": 0, "workers": 8},
         ]
     for f in fams:
         replay.run_family(rep, f, "sem", modes)
